@@ -53,6 +53,9 @@ func (sm scriptModule) ExecuteNewCall(ctx context.Context, call *wasm.Call, cach
 	if ExecHook != nil {
 		ExecHook(m.Name, b)
 	}
+	if err := hangErr(ctx, b); err != nil {
+		return inst{}, err
+	}
 	if m.FailAt >= 0 && uint64(m.FailAt) == b {
 		call.SetPanicError(fmt.Sprintf("scripted failure of %s at block %d", m.Name, b), "script", 1, 1)
 		return inst{}, nil
